@@ -92,6 +92,14 @@ class Lib:
                 raise OSError("mprotect failed")
         self.readonly = True
         self.protected_regions = regions
+        # process exit runs the image's own __do_global_dtors_aux, which sets a "completed" flag in .bss: not a store made by any
+        # library call - lift the protection before the dynamic loader's finalisers run
+        import atexit
+
+        def _unprotect(regions=regions, libc=libc, pid=__import__("os").getpid()):
+            for lo, n in regions:
+                libc.mprotect(lo, n, 3)
+        atexit.register(_unprotect)
 
     # ------------------------------------------------------------------ raw access
     def f(self, name):
